@@ -328,7 +328,8 @@ func (c *C) Mail(ctx context.Context, from string, opts smtp.MailOptions) error 
 	if opts.UTF8 {
 		if ok, _ := c.cl.Extension("SMTPUTF8"); ok {
 			outOpts.UTF8 = true
-		} else {
+		} else if from != "" {
+			// The null reverse-path (DSNs) has nothing to convert.
 			var err error
 			from, err = address.ToASCII(from)
 			if err != nil {
